@@ -118,8 +118,17 @@ pub fn run(ctx: &Ctx, rep: &mut Report) {
     for case in ctx.case_range(n) {
         rep.current_case = case;
         let mut rng = ctx.rng("c19", case);
-        let (class, rtype) = *rng.pick(EQ_TYPES);
-        let pool = gen_pool(&mut rng, class, rtype);
+        // RDATA shaped for (gclass, gtype) is mostly judged as that class and type, but
+        // also under another class or type: name-aware comparison must apply exactly
+        // where the format is defined (SRV only in IN, the CH A format only in CH, the
+        // RFC 1035 name types in every class) and octet-wise comparison everywhere else
+        let (gclass, gtype) = *rng.pick(EQ_TYPES);
+        let (class, rtype) = match rng.below(6) {
+            0 => (*rng.pick(&[C_IN, C_CH, C_HS, 254u16, 255, 0, 65280]), gtype),
+            1 => (gclass, *rng.pick(&[T_TXT, T_NULL, T_AAAA, 65280u16, T_SRV, T_A, T_NS, T_MX])),
+            _ => (gclass, gtype),
+        };
+        let pool = gen_pool(&mut rng, gclass, gtype);
         let (qc, qt) = (Class::from(class), Type::from(rtype));
         let result = panicmon::catch(|| {
             let n = pool.len();
